@@ -40,6 +40,7 @@ type implRun struct {
 	steps       int    // VM instructions executed after the prelude
 	requested   bool   // Interrupt() has been called
 	frames      string // innermost function names at the moment of a step interrupt
+	nestedDrain bool   // a NewPromise resolver called by a native handler ran promise jobs before returning
 	callable    bool   // script segments are entered through a Callable (AssertFunction) instead of RunProgram
 	names       map[*goja.Promise]string
 
@@ -112,7 +113,16 @@ func newImpl(o implOpts) *implRun {
 		// the returned value is a Go native function object; the script passes it directly to then()
 		return r.ToValue(func(call goja.FunctionCall) goja.Value {
 			ir.entries = append(ir.entries, ientry{tag: tag, v: call.Argument(0), hasV: true})
+			n := len(ir.entries)
 			ir.goSettle(slot, rej, v)
+			// Inside a resolving function only getters ('then' lookup) and the rejection tracker may run. An entry
+			// logged by a handler / then-method / async continuation means that the resolver has run promise jobs,
+			// i.e. it drained the job queue recursively (direct evidence for the nested-drain finding).
+			for _, e := range ir.entries[n:] {
+				if e.track == nil && e.raw == "" && !e.isSeg && e.tag != "og" && e.tag != "oc" && e.tag != "gt" && e.tag != "gc" {
+					ir.nestedDrain = true
+				}
+			}
 			return goja.Undefined()
 		})
 	})
@@ -205,8 +215,13 @@ func (ir *implRun) run(p *pm.Program) {
 			case pm.VPVar:
 				v = r.Get("p" + strconv.Itoa(s.Go.V.N))
 			case pm.VObj:
+				// building the value is a run of its own (nothing is pending, so it is inert)
 				v, err = r.RunString("(" + s.Go.V.JS() + ")")
 				if err != nil {
+					if _, ok := err.(*goja.InterruptedError); ok && ir.requested {
+						ir.interrupted = true
+						return
+					}
 					ir.anomaly("go-value-error:%v", err)
 				}
 			default:
